@@ -45,6 +45,7 @@ fn gen(rng: &mut Rng, idx: u64, tier: Tier) -> Case {
         let keep: Vec<u32> = all.iter().copied().filter(|_| rng.chance(0.6)).collect();
         for k in if keep.is_empty() { vec![17] } else { keep } { args.push(format!("--filter={}", k)); }
     }
+    gen::add_neutral_options(rng, &mut args, true, true);
     // schedule: absolute times per aircraft
     let horizon_frames = if tier == Tier::Thorough && rng.chance(0.05) { 400 } else { rng.range(20, 160) as usize };
     let mut events: Vec<(i64, usize, Kind)> = vec![];
